@@ -3,7 +3,7 @@
 from concurrent.futures import ThreadPoolExecutor
 from common import *
 
-MAXP = {"quick": 8, "thorough": 64}
+MAXP = {"quick": 16, "thorough": 64}
 
 
 def history(rng, n, fail_mode, shape, p_probe):
@@ -142,14 +142,17 @@ class C16(Prop):
                 k = 0
             elif r < 0.2:
                 k = 1
-            elif r < 0.85 or tier == "quick":
+            elif r < 0.85:
                 k = rng.randint(2, min(8, maxp))
             else:
-                k = rng.randint(9, maxp)
+                # more processes than any small fixed limit, most of them running at the same time
+                k = rng.randint(9, max(9, maxp))
             fail_mode = rng.choice(["none", "one", "one", "several", "several", "all"])
             shape = rng.choice(["mixed", "mixed", "mixed", "finish_first", "finish_last", "ends_early",
                                 "cut_running", "never_finish"])
-            p_probe = rng.choice([0.1, 0.3, 0.3, 0.6])
+            if k > 8 and rng.random() < 0.6:
+                shape = rng.choice(["finish_first", "finish_last"])     # add-heavy: many run concurrently
+            p_probe = rng.choice([0.1, 0.3, 0.3, 0.6]) if k <= 8 else rng.choice([0.6, 0.9])
             cases.append(history(rng, k, fail_mode, shape, p_probe))
         return cases[:n]
 
